@@ -36,9 +36,9 @@ CLAIMS = {
 E2_NOTE = ("trusted: stateright 0.31 (bounded DFS with the depth in the state key; cross-checked against BFS counts on every C12 run); the harness's clock_gettime interposition (self-tested each run); the reference tracker; exact haversine; "
            "depth-bounded (no fixpoint) plus periodic (lasso) histories: every word of period <= 2-3 repeated to 1200-3000 events; oracles are evaluated on every generated state inside next_state (stateright itself skips the deepest level)")
 for _pid, _ref, _txt in [
-  ("C12", "3 C12", "all histories up to depth 4 (quick) / 5 (thorough) over a 37-letter frame alphabet (2-3 addresses x payload classes, DF18 with foreign PI, eight non-ES formats): key set, Added, message counts, non-ES no-ops, record isolation checked on every reachable state; an expiry model (accounting letters x prune, one second per event) for 'the tracked set shrinks only through expiry'; a model over all 32 type codes from address 000000 and a1"),
-  ("C13", "3 C13", "all histories up to depth 4-6 (7 quick / 9 thorough on a single-aircraft sub-alphabet) of even/odd reports from a flight, range-boundary, jump-boundary (polar NL=1), garbage, second-aircraft and receiver-move letters, several receivers/ranges, 1 s and 100 s per event, polar models on the +-90 deg zone latitudes, every carrier (DF17 / DF18 x barometric / GNSS height), pairs 20 m on either side of every NL transition: published position, clearing, distance, the pairing itself against the independent reference decoder"),
-  ("C14", "3 C14", "same state spaces plus identification/velocity letters: latest-wins attributes, details/all_position/Display views, distance-iff-position, track = superseded publications in order (periodic histories with > 1100 required entries); altitude codes incl. 0 ft"),
+  ("C12", "3 C12", "all histories up to depth 4 (quick) / 5 (thorough) over a 37-letter frame alphabet (2-3 addresses x payload classes, DF18 with foreign PI, eight non-ES formats): key set, Added, message counts, non-ES no-ops, record isolation checked on every reachable state; an expiry model (accounting letters x prune, one second per event) for 'the tracked set shrinks only through expiry'; a model over all 32 type codes from address 000000 and a1; the receiver at 0N 0E; 1300 simultaneous addresses"),
+  ("C13", "3 C13", "all histories up to depth 4-6 (7 quick / 9 thorough on a single-aircraft sub-alphabet) of even/odd reports from a flight, range-boundary, jump-boundary (polar NL=1), garbage, second-aircraft and receiver-move letters, several receivers/ranges, 1 s and 100 s per event, polar models on the +-90 deg zone latitudes, every carrier (DF17 / DF18 x barometric / GNSS height), pairs 20 m on either side of every NL transition, longitude rounding ties: published position, clearing, distance, the pairing itself against the independent reference decoder"),
+  ("C14", "3 C14", "same state spaces plus identification/velocity letters: latest-wins attributes, details/all_position/Display views, distance-iff-position, track = superseded publications in order (periodic histories with > 1100 required entries); altitude codes incl. 0 ft; an aircraft at exactly 0N 0E"),
   ("C15", "3 C15", "all interleavings up to depth 6 (quick) / 9 (thorough) of frames (identification, velocity, positions, unhandled types, DF18, non-ES), waits {1 ns, 0.4T, 0.6T, T-1ns, T} and prune(T), T in {0, 1, 10} and prune(u64::MAX): exact expiry set, untouched survivors, fresh record on re-appearance"),
 ]:
     CLAIMS[_pid] = dict(cat="model_checking", engine="E2-tracker",
@@ -57,7 +57,7 @@ CLAIMS["C20"] = dict(cat="exploration", engine="E1-lattice",
 E4_NOTE = ("trusted: the pty/TCP driver (causal synchronisation on /proc io counters, TIOCOUTQ and ratatui's per-draw cursor-hide heartbeat; no verdict on a bare sleep except the 250 ms gap class and the 1.6 s expiry wait with guard bands), the VT screen model, "
            "the helper `vh feed2table` (real decoder + real tracker) as the table oracle; every violating script is replayed twice before it is reported, disagreeing replays are machinery errors")
 CLAIMS["C16"] = dict(cat="fault_enumeration", engine="E4-apps",
-    tech="exhaustive enumeration of feed schedules on the real radar and 1090 binaries: every cut position of a 3-line feed (<=1 cut quick, <=2 thorough) with a timeout gap, a malformed-line alphabet at every feed position in two timings, every disconnect point with retry on/off, orderly (FIN) and abortive (RST) close",
+    tech="exhaustive enumeration of feed schedules on the real radar and 1090 binaries: every cut position of a 3-line feed (<=1 cut quick, <=2 thorough) with a timeout gap, a malformed-line alphabet at every feed position in two timings, every disconnect point with retry on/off, orderly (FIN) and abortive (RST) close; every DF17 capability value with / without --limit-parsing",
     text="all segmentations within the bound, all alphabet lines at all positions, all disconnect points; oracle = echoed payload sequence followed by the library's rendering of each frame (1090) / per-aircraft message counts vs the tracker library (radar)", ref="3 C16", note=E4_NOTE)
 CLAIMS["C17"] = dict(cat="model_checking", engine="E4-apps",
     tech="stateless bounded-depth model checking of the real radar binary under a pty: all event sequences up to depth 1-4 over the key/mouse/resize/traffic alphabet x delivery mode x terminal sizes x tracked-set contexts x option sets; CLI value alphabet",
